@@ -69,7 +69,12 @@ def takagi(matrix, connector, atol=1e-12):
         # NOTE: It is not mentioned in the cited paper, but it does matter which square
         # root you take here. If the square root is not the "canonical" one, the
         # decomposition might not yield the original matrix.
-        angles_mod = np.mod(np.angle(diags), 2 * np.pi)  # phases in [0, 2\pi)
+        # The branch cut is placed slightly below the positive real axis, so that
+        # an eigenvalue 1 computed with a tiny negative phase is treated as 1.
+        branch_cut_shift = 1e-9
+        angles_mod = (
+            np.mod(np.angle(diags) + branch_cut_shift, 2 * np.pi) - branch_cut_shift
+        )
         sqrt_diags = np.sqrt(np.abs(diags)) * np.exp(1j * angles_mod / 2)
 
         sqrt_Z = Q @ np.diag(sqrt_diags) @ np.conj(Q).T
